@@ -36,6 +36,7 @@ type DPCall struct {
 	Len     int64
 	Sum     uint64
 	Applied bool
+	Err     string // the replica's own error (no fault injected on this call)
 	Outcome Outcome
 	When    time.Time
 }
@@ -541,9 +542,12 @@ func (d *faultDP) begin(c DPCall) int {
 	return i
 }
 
-func (d *faultDP) done(i int, applied bool) {
+func (d *faultDP) done(i int, err error) {
 	d.n.mu.Lock()
-	d.n.Log[i].Applied = applied
+	d.n.Log[i].Applied = err == nil
+	if err != nil {
+		d.n.Log[i].Err = err.Error()
+	}
 	d.n.mu.Unlock()
 }
 
@@ -585,7 +589,7 @@ func (d *faultDP) WriteAt(p []byte, off int64) (c int, err error) {
 		return 0, err
 	}
 	c, err = d.n.S.WriteAt(p, off)
-	d.done(i, err == nil)
+	d.done(i, err)
 	return c, err
 }
 
@@ -597,7 +601,7 @@ func (d *faultDP) ReadAt(p []byte, off int64) (c int, err error) {
 		return 0, err
 	}
 	c, err = d.n.S.ReadAt(p, off)
-	d.done(i, err == nil)
+	d.done(i, err)
 	return c, err
 }
 
@@ -609,7 +613,7 @@ func (d *faultDP) Sync() (c int, err error) {
 		return -1, err
 	}
 	c, err = d.n.S.Sync()
-	d.done(i, err == nil)
+	d.done(i, err)
 	return c, err
 }
 
@@ -621,7 +625,7 @@ func (d *faultDP) Unmap(off, length int64) (c int, err error) {
 		return -1, err
 	}
 	c, err = d.n.S.Unmap(off, length)
-	d.done(i, err == nil)
+	d.done(i, err)
 	return c, err
 }
 
